@@ -576,6 +576,12 @@ def check_paths(exe, verdict, seed):
     s += ["mkdir %s" % hx(root + "/sub/deep"), "symlink %s %s" % (hx("sub"), hx(root + "/lnk")), "symlink %s %s" % (hx("a.conf"), hx(root + "/sub/la.conf")), "chdir %s" % hx(root)]
     for n, nm in enumerate(rel):
         s += ["readfile %d %s x3d x23" % (10 + n, hx(nm)), "path %d" % (10 + n), "ext %d - %s" % (10 + n, hx("k" if nm.endswith("a.conf") else "j")), "free %d" % (10 + n)]
+    # plain names (no directory part) from changing working directories: the answer belongs to the directory the process stands
+    # in at the time of the call
+    plain = [(root, "b.conf", "j"), (root + "/sub", "a.conf", "k"), (root, "b.conf", "j"), (root + "/sub/deep", "c.conf", "m"), (root + "/sub", "la.conf", "k")]
+    s.append("file %s %s" % (hx(root + "/sub/deep/c.conf"), hx("# c\n\nm=3\n")))
+    for n, (cwd, nm, key) in enumerate(plain):
+        s += ["chdir %s" % hx(cwd), "readfile %d %s x3d x23" % (30 + n, hx(nm)), "path %d" % (30 + n), "ext %d - %s" % (30 + n, hx(key)), "free %d" % (30 + n)]
     s.append("chdir /")
     out = core.run_cases(exe, [("paths", s)], jobs=1)["paths"]
     if out["crash"]:
@@ -605,7 +611,19 @@ def check_paths(exe, verdict, seed):
                 good = False
             if not good:
                 verdict.violation("C17:path:relative", {"script": s, "name": nm, "got": g}, "%s for the relative name %r: %r is not an absolute path of that file" % (what, nm, g))
-    return len(want) + len(rel)
+    lines = {e["h"]: e.get("line") for e in out["ev"] if e["op"] == "ext"}
+    for n, (cwd, nm, key) in enumerate(plain):
+        for what, g in (("econf_getPath", paths.get(30 + n)), ("extended value file", exts.get(30 + n))):
+            good = isinstance(g, str) and g.startswith("/")
+            try:
+                good = good and os.path.samefile(g, os.path.join(cwd.replace(core.ROOT + "/paths", root), nm))
+            except OSError:
+                good = False
+            if not good:
+                verdict.violation("C17:path:plain-name", {"script": s, "cwd": cwd, "name": nm, "got": g}, "%s for the plain name %r read from %s: %r is not an absolute path of that file" % (what, nm, cwd.replace(core.ROOT, ""), g))
+        if lines.get(30 + n) != {"j": 1, "k": 1, "m": 3}[key]:
+            verdict.violation("C17:path:plain-name:line", {"script": s, "cwd": cwd, "name": nm, "got": lines.get(30 + n)}, "line number of key %s in %s read by its plain name: %r" % (key, nm, lines.get(30 + n)))
+    return len(want) + len(rel) + len(plain)
 
 
 # ----- C05: comment lines are inert -----
